@@ -108,8 +108,8 @@ class Oracle:
         if ctx.op.get("shape") == "update:newvalue+kw":
             tg = set(dnc)  # the result derives from the replacement instance handed in, not from the receiver
         for n in dnc:
-            if n in tg:
-                continue
+            if n in tg and ctx.op.get("shape") not in ("update:noargs", "transform:noargs"):
+                continue  # (a call that changes nothing about the attribute it names still has to carry it by identity)
             if n in vars(recv) and (n not in vars(res) or vars(res)[n] is not vars(recv)[n]):
                 v.append(explore.violation(PROP, ctx.sig("do_not_copy_attr_duplicated", attr=n),
                                            {"receiver": repr(vars(recv)[n])[:80], "result": repr(vars(res).get(n, '<absent>'))[:80]},
